@@ -4,7 +4,7 @@ From Coq Require Import List NArith ZArith Arith Lia Bool.
 From Coq.Strings Require Import Byte.
 From RecordUpdate Require Import RecordSet.
 From Model Require Import Bytes Utf8 Frame Parser FrameParser Response Conn.
-From Proofs Require Import BytesFacts ParserFacts FrameParserFacts ConnFacts ApiFacts TraceFacts ViolationFacts ShapeFacts DeliveryFacts.
+From Proofs Require Import BytesFacts ParserFacts FrameParserFacts FrameFacts ConnFacts ApiFacts TraceFacts ViolationFacts ShapeFacts DeliveryFacts.
 Import ListNotations RecordSetNotations.
 Open Scope N_scope.
 
@@ -164,3 +164,108 @@ Section StreamViolation.
               |rewrite perrors_nope by (eapply Forall_impl; [exact housekeeping_nope|exact Fl]); cbn [perrors]; rewrite P1; reflexivity]).
   Qed.
 End StreamViolation.
+
+(* ====================================================================================================== *)
+(* header-level violations: reserved bits, reserved opcodes, fragmented or oversize control frames *)
+Lemma byte0_all fin r1 r2 r3 op : op < 16 ->
+  let n0 := b2n (byte0 fin r1 r2 r3 op) in
+  (128 <=? n0) = fin /\ N.testbit n0 6 = r1 /\ N.testbit n0 5 = r2 /\ N.testbit n0 4 = r3 /\ n0 mod 16 = op.
+Proof.
+  intros H. apply op_cases in H. cbn [In] in H.
+  destruct fin, r1, r2, r3; repeat (destruct H as [<-|H]; [vm_compute; repeat split; reflexivity|]); contradiction.
+Qed.
+
+(* the bytes of an unmasked frame header with its length field, in any legal length form *)
+Definition hdr_bytes (h : hinfo) (lf : lenform) (len : N) : bytes :=
+  byte0 (h_fin h) (h_r1 h) (h_r2 h) (h_r3 h) (h_op h) :: len_field lf 0 len.
+
+(* the parser reads them back: it is at the point where the header is judged, with the same text bookkeeping *)
+Lemma pull_header s t u h lf len rest :
+  at_boundary s t u -> h_mask h = false -> h_op h < 16 -> form_ok lf len = true ->
+  exists g', fp_is_text g' = t /\ fp_u g' = u /\ fp_compression g' = false /\
+             fp_pull s (hdr_bytes h lf len ++ rest) = after_resume fpg pitem perr (after_len g' h len) rest fp_pull.
+Proof.
+  intros Hs Hm Hop Hf. unfold hdr_bytes.
+  pose proof (byte0_all (h_fin h) (h_r1 h) (h_r2 h) (h_r3 h) (h_op h) Hop) as (B1 & B2 & B3 & B4 & B5). cbv zeta in *.
+  set (g0 := {| fp_phase := FHdr; fp_is_text := t; fp_u := u; fp_compression := false |}).
+  unfold at_boundary in Hs. subst s. fold g0.
+  assert (Hh : forall mb, mb = false ->
+            {| h_fin := h_fin h; h_r1 := h_r1 h; h_r2 := h_r2 h; h_r3 := h_r3 h; h_op := h_op h; h_mask := mb |} = h).
+  { intros mb ->. destruct h; cbn in *; subst; reflexivity. }
+  destruct (len_field_cases lf len Hf) as [(-> & Hl & El)|[(-> & Hl & El)|(-> & Hl & El)]]; rewrite El.
+  - change ((byte0 (h_fin h) (h_r1 h) (h_r2 h) (h_r3 h) (h_op h) :: [n2b len]) ++ rest)
+      with ([byte0 (h_fin h) (h_r1 h) (h_r2 h) (h_r3 h) (h_op h); n2b len] ++ rest).
+    pose proof (read_exact g0 false [byte0 (h_fin h) (h_r1 h) (h_r2 h) (h_r3 h) (h_op h); n2b len] rest ltac:(discriminate)) as Hr.
+    cbv zeta in Hr. change (blen [byte0 (h_fin h) (h_r1 h) (h_r2 h) (h_r3 h) (h_op h); n2b len]) with 2 in Hr. rewrite Hr. clear Hr.
+    unfold fp_resume. cbn [fp_phase g0 nth]. rewrite B1, B2, B3, B4, B5. rewrite (b2n_n2b len) by lia.
+    replace (128 <=? len) with false by (symmetry; apply N.leb_gt; lia).
+    rewrite (N.mod_small len 128) by lia.
+    replace (len =? 126) with false by (symmetry; apply N.eqb_neq; lia).
+    replace (len =? 127) with false by (symmetry; apply N.eqb_neq; lia).
+    rewrite (Hh false eq_refl). exists g0. repeat split; reflexivity.
+  - change ((byte0 (h_fin h) (h_r1 h) (h_r2 h) (h_r3 h) (h_op h) :: n2b 126 :: be_encode 2 len) ++ rest)
+      with ([byte0 (h_fin h) (h_r1 h) (h_r2 h) (h_r3 h) (h_op h); n2b 126] ++ (be_encode 2 len ++ rest)).
+    pose proof (read_exact g0 false [byte0 (h_fin h) (h_r1 h) (h_r2 h) (h_r3 h) (h_op h); n2b 126] (be_encode 2 len ++ rest) ltac:(discriminate)) as Hr.
+    cbv zeta in Hr. change (blen [byte0 (h_fin h) (h_r1 h) (h_r2 h) (h_r3 h) (h_op h); n2b 126]) with 2 in Hr. rewrite Hr. clear Hr.
+    unfold fp_resume at 1. cbn [fp_phase g0 nth]. rewrite B1, B2, B3, B4, B5.
+    change (b2n (n2b 126)) with 126. change (128 <=? 126) with false. change (126 mod 128 =? 126) with true.
+    cbn [after_resume set_phase]. rewrite (Hh false eq_refl).
+    assert (Hbe : be_encode 2 len <> []) by (intros E; pose proof (be_encode_length 2 len) as L; rewrite E in L; discriminate).
+    match goal with |- context [fp_pull {| pg := ?g1; paw := AwBytes false; prem := 2; pbuf := [] |} (be_encode 2 len ++ _)] =>
+      pose proof (read_exact g1 false (be_encode 2 len) rest Hbe) as Hr; set (gx := g1) in * end.
+    cbv zeta in Hr. unfold blen in Hr at 1. rewrite be_encode_length in Hr. change (N.of_nat 2) with 2 in Hr. rewrite Hr. clear Hr.
+    unfold fp_resume at 1. cbn [fp_phase gx]. rewrite be_roundtrip by (cbn; lia).
+    exists gx. repeat split; reflexivity.
+  - change ((byte0 (h_fin h) (h_r1 h) (h_r2 h) (h_r3 h) (h_op h) :: n2b 127 :: be_encode 8 len) ++ rest)
+      with ([byte0 (h_fin h) (h_r1 h) (h_r2 h) (h_r3 h) (h_op h); n2b 127] ++ (be_encode 8 len ++ rest)).
+    pose proof (read_exact g0 false [byte0 (h_fin h) (h_r1 h) (h_r2 h) (h_r3 h) (h_op h); n2b 127] (be_encode 8 len ++ rest) ltac:(discriminate)) as Hr.
+    cbv zeta in Hr. change (blen [byte0 (h_fin h) (h_r1 h) (h_r2 h) (h_r3 h) (h_op h); n2b 127]) with 2 in Hr. rewrite Hr. clear Hr.
+    unfold fp_resume at 1. cbn [fp_phase g0 nth]. rewrite B1, B2, B3, B4, B5.
+    change (b2n (n2b 127)) with 127. change (128 <=? 127) with false. change (127 mod 128 =? 126) with false. change (127 mod 128 =? 127) with true.
+    cbn [after_resume set_phase]. rewrite (Hh false eq_refl).
+    assert (Hbe : be_encode 8 len <> []) by (intros E; pose proof (be_encode_length 8 len) as L; rewrite E in L; discriminate).
+    match goal with |- context [fp_pull {| pg := ?g1; paw := AwBytes false; prem := 8; pbuf := [] |} (be_encode 8 len ++ _)] =>
+      pose proof (read_exact g1 false (be_encode 8 len) rest Hbe) as Hr; set (gx := g1) in * end.
+    cbv zeta in Hr. unfold blen in Hr at 1. rewrite be_encode_length in Hr. change (N.of_nat 8) with 8 in Hr. rewrite Hr. clear Hr.
+    unfold fp_resume at 1. cbn [fp_phase gx]. rewrite be_roundtrip by (cbn; lia).
+    exists gx. repeat split; reflexivity.
+Qed.
+
+Section HeaderViolation.
+  Variable cf : cfg.
+  Variable app : strategy.
+  Hypothesis app_passive : passive app.
+  Hypothesis no_ping_timeout : zpos (c_ping_timeout cf) = None.
+
+  Theorem header_violation_after_prefix fs lfs c open ms open' h lf len rest :
+    idle c open -> data_head open -> Forall plain fs -> forms_ok fs lfs ->
+    ref_messages open fs = Some (ms, open') ->
+    h_mask h = false -> h_op h < 16 -> form_ok lf len = true -> validate_err false h len = true ->
+    let r := feedf cf app c (encode_all fs lfs ++ hdr_bytes h lf len ++ rest) in
+    snd r <> SOk /\
+    msg_events (k_tr (fst r)) = rev (map ev_of ms) ++ msg_events (k_tr c) /\
+    perrors (k_tr (fst r)) = false :: perrors (k_tr c).
+  Proof.
+    intros Hidle Hdh Hpl Hforms Href Hm Hop Hf Hv. cbv zeta.
+    destruct (deliver_frames cf app app_passive no_ping_timeout fs lfs c open ms open' Hidle Hdh Hpl Hforms Href)
+      as (c1 & E1 & Hidle1 & Hdh1 & M1 & _ & _).
+    pose proof (feed_ok_no_protocol_error cf app c _ c1 E1) as P1.
+    rewrite (feed_split cf app (length (encode_all fs lfs)) (encode_all fs lfs) (hdr_bytes h lf len ++ rest) c (le_n _) (idle_ok c open Hidle)).
+    unfold then_feed. rewrite E1. cbn [fst snd].
+    destruct Hidle1 as (Hcl & Hcg & Hdf & Hsc & Hfr & Hrs & u & Hab & Hu).
+    destruct (pull_header (k_ps c1) (is_text_msg open') u h lf len rest Hab Hm Hop Hf) as (g' & G1 & G2 & G3 & Hpull).
+    assert (Hlen : len < 9223372036854775808) by (destruct lf; cbn in Hf; apply N.ltb_lt in Hf; lia).
+    assert (Herr : fp_pull (k_ps c1) (hdr_bytes h lf len ++ rest) = Err PE_Protocol).
+    { rewrite Hpull. unfold after_len. replace (9223372036854775807 <? len) with false by (symmetry; apply N.ltb_ge; lia).
+      rewrite Hm. unfold after_mask. rewrite G3, Hv. reflexivity. }
+    rewrite feedf_unfold by (rewrite Hab; unfold fp_ok, st_ok; cbn; lia). unfold feed_body. rewrite Hcl, Herr.
+    cbn [perr_to_merr].
+    pose proof (raise_in_feed_not_ok cf app (c1 <| k_ps := fp_init |>) MProtocol) as Hst.
+    destruct (raise_in_feed_trace cf app (c1 <| k_ps := fp_init |>) MProtocol) as (l & El & Fl).
+    destruct (raise_in_feed cf app (c1 <| k_ps := fp_init |>) MProtocol) as [c3 st]. cbn [fst snd] in *.
+    change (k_tr (c1 <| k_ps := fp_init |>)) with (k_tr c1) in El.
+    split; [exact Hst|]. rewrite El.
+    split; [rewrite housekeeping_no_msg by exact Fl; cbn [msg_events is_msg_ev]; exact M1
+           |rewrite perrors_nope by (eapply Forall_impl; [exact housekeeping_nope|exact Fl]); cbn [perrors]; rewrite P1; reflexivity].
+  Qed.
+End HeaderViolation.
